@@ -251,6 +251,10 @@ class LSMTree(Entity):
         # Immutable memtables awaiting flush (for reads during flush)
         self._immutable_memtables: list[Memtable] = []
 
+        # WAL sequence numbers whose write is not in an installed SSTable yet,
+        # mapped to the memtable holding it (None while still inside wal.append)
+        self._wal_pending: dict[int, Memtable | None] = {}
+
         # SSTable levels: levels[0] is L0 (most recent)
         self._levels: list[list[SSTable]] = [[] for _ in range(max_levels)]
 
@@ -346,11 +350,16 @@ class LSMTree(Entity):
         self._logical_data[key] = value
 
         # WAL append
+        seq = None
         if self._wal is not None:
+            seq = self._wal._next_sequence  # the number append() assigns right away
+            self._wal_pending[seq] = None
             yield from self._wal.append(key, value)
             self._total_wal_writes += 1
 
         # Memtable put
+        if seq is not None:
+            self._wal_pending[seq] = self._memtable
         is_full = yield from self._memtable.put(key, value)
 
         # Flush if full
@@ -458,10 +467,15 @@ class LSMTree(Entity):
         self._user_bytes_written += 64
         self._logical_data.pop(key, None)
 
+        seq = None
         if self._wal is not None:
+            seq = self._wal._next_sequence
+            self._wal_pending[seq] = None
             yield from self._wal.append(key, _TOMBSTONE)
             self._total_wal_writes += 1
 
+        if seq is not None:
+            self._wal_pending[seq] = self._memtable
         is_full = yield from self._memtable.put(key, _TOMBSTONE)
         if is_full:
             yield from self._flush_memtable()
@@ -532,9 +546,13 @@ class LSMTree(Entity):
         # Remove from immutable list
         self._immutable_memtables.remove(old_memtable)
 
-        # Truncate WAL
+        # Truncate WAL, but only below the oldest entry whose write is not in an
+        # SSTable yet (entries of the new memtable, or still inside wal.append)
         if self._wal is not None:
-            self._wal.truncate(self._wal._next_sequence - 1)
+            for seq in [q for q, m in self._wal_pending.items() if m is old_memtable]:
+                del self._wal_pending[seq]
+            bound = min(self._wal_pending, default=self._wal._next_sequence)
+            self._wal.truncate(bound - 1)
 
         logger.debug(
             "[%s] Flushed memtable to L0 SSTable(%d keys), L0 now has %d SSTables",
@@ -685,6 +703,7 @@ class LSMTree(Entity):
         if self._clock is not None:
             self._memtable.set_clock(self._clock)
         self._immutable_memtables.clear()
+        self._wal_pending.clear()
 
         # Crash WAL — discard unsynced entries
         wal_lost = 0
